@@ -423,4 +423,462 @@ theorem flatten_delivers_in_order (k : Snk σ β) (s : σ) (ops : List (Op (List
       protoOk r.1.1.1.2 = true ∧ sends r.1.1.1.2 ++ r.1.1.2 = (sends r.1.2).flatMap id ∧ r.2 = true :=
   fun hc => let h := flatMap_delivers_in_order id k s ops hc; ⟨h.1, h.2.1, h.2.2.1⟩
 
+
+/-! ### `Unzip` -/
+
+structure UZInv {γ : Type} (it₀ : List (Ev α)) (it₁ : List (Ev γ)) (ct : List (Ev (α × γ))) : Prop where
+  p₀ : protoOk it₀ = true
+  p₁ : protoOk it₁ = true
+  d₀ : sends it₀ = (sends ct).map (·.1)
+  d₁ : sends it₁ = (sends ct).map (·.2)
+  armed : armedAfter false ct = true → armedAfter false it₀ = true ∧ armedAfter false it₁ = true
+
+theorem aux_protoOk_snoc_poll (t : List (Ev α)) (e : Ev α) (h : protoOk t = true)
+    (he : ∀ x, e ≠ .send x) : protoOk (t ++ [e]) = true := by
+  simp only [protoOk, aux_protoOkAux_append, Bool.and_eq_true]
+  refine ⟨h, ?_⟩
+  cases e with
+  | send x => exact absurd rfl (he x)
+  | ready b => simp [protoOkAux]
+  | flush b => simp [protoOkAux]
+  | close b => simp [protoOkAux]
+
+theorem aux_unzip_step {γ τ : Type} (k₀ : Snk σ α) (k₁ : Snk τ γ)
+    (c : (((σ × List (Ev α)) × (τ × List (Ev γ))) × List (Ev (α × γ))) × Bool) (op : Op (α × γ))
+    (hI : UZInv c.1.1.1.2 c.1.1.2.2 c.1.2)
+    (hc : protoOk (stepOp (unzip k₀.recd k₁.recd).recd c op).1.2 = true) :
+    UZInv (stepOp (unzip k₀.recd k₁.recd).recd c op).1.1.1.2
+      (stepOp (unzip k₀.recd k₁.recd).recd c op).1.1.2.2 (stepOp (unzip k₀.recd k₁.recd).recd c op).1.2 := by
+  obtain ⟨⟨⟨⟨s₀, it₀⟩, ⟨s₁, it₁⟩⟩, ct⟩, ok⟩ := c
+  obtain ⟨p₀, p₁, d₀, d₁, ar⟩ := hI
+  simp only at p₀ p₁ d₀ d₁ ar
+  cases op with
+  | ready =>
+    simp only [stepOp, unzip, recd_pollReady] at hc ⊢
+    refine ⟨aux_protoOk_snoc_poll _ _ p₀ (by simp), aux_protoOk_snoc_poll _ _ p₁ (by simp),
+      by rw [aux_sends_snoc_ready, aux_sends_snoc_ready]; exact d₀,
+      by rw [aux_sends_snoc_ready, aux_sends_snoc_ready]; exact d₁, ?_⟩
+    intro h
+    simp only [aux_armedAfter_append, armedAfter, Bool.and_eq_true] at h ⊢
+    exact h
+  | send x =>
+    simp only [stepOp, unzip, recd_startSend] at hc ⊢
+    have harm : armedAfter false ct = true := by
+      simp only [protoOk, aux_protoOkAux_append, protoOkAux, Bool.and_eq_true, Bool.and_true] at hc
+      exact hc.2
+    obtain ⟨a₀, a₁⟩ := ar harm
+    refine ⟨?_, ?_, by rw [aux_sends_snoc_send, aux_sends_snoc_send, d₀]; simp,
+      by rw [aux_sends_snoc_send, aux_sends_snoc_send, d₁]; simp, ?_⟩
+    · simp only [protoOk, aux_protoOkAux_append, protoOkAux, Bool.and_eq_true, Bool.and_true]
+      exact ⟨p₀, a₀⟩
+    · simp only [protoOk, aux_protoOkAux_append, protoOkAux, Bool.and_eq_true, Bool.and_true]
+      exact ⟨p₁, a₁⟩
+    · intro h; simp [aux_armedAfter_append, armedAfter] at h
+  | flush =>
+    simp only [stepOp, unzip, recd_pollFlush] at hc ⊢
+    refine ⟨aux_protoOk_snoc_poll _ _ p₀ (by simp), aux_protoOk_snoc_poll _ _ p₁ (by simp),
+      by rw [aux_sends_snoc_flush, aux_sends_snoc_flush]; exact d₀,
+      by rw [aux_sends_snoc_flush, aux_sends_snoc_flush]; exact d₁, ?_⟩
+    intro h
+    simp only [aux_armedAfter_append, armedAfter] at h ⊢
+    exact ar h
+  | close =>
+    simp only [stepOp, unzip, recd_pollClose] at hc ⊢
+    refine ⟨aux_protoOk_snoc_poll _ _ p₀ (by simp), aux_protoOk_snoc_poll _ _ p₁ (by simp),
+      by rw [aux_sends_snoc_close, aux_sends_snoc_close]; exact d₀,
+      by rw [aux_sends_snoc_close, aux_sends_snoc_close]; exact d₁, ?_⟩
+    intro h
+    simp only [aux_armedAfter_append, armedAfter] at h ⊢
+    exact ar h
+
+theorem aux_unzip_run {γ τ : Type} (k₀ : Snk σ α) (k₁ : Snk τ γ) (ops : List (Op (α × γ))) :
+    ∀ (c : (((σ × List (Ev α)) × (τ × List (Ev γ))) × List (Ev (α × γ))) × Bool),
+      (protoOk c.1.2 = true → UZInv c.1.1.1.2 c.1.1.2.2 c.1.2) →
+      protoOk (runOps (unzip k₀.recd k₁.recd).recd c ops).1.2 = true →
+      UZInv (runOps (unzip k₀.recd k₁.recd).recd c ops).1.1.1.2
+        (runOps (unzip k₀.recd k₁.recd).recd c ops).1.1.2.2 (runOps (unzip k₀.recd k₁.recd).recd c ops).1.2 := by
+  induction ops with
+  | nil => intro c h hc; exact h hc
+  | cons op ops ih =>
+    intro c h hc
+    simp only [runOps, List.foldl_cons] at ih hc ⊢
+    apply ih _ _ hc
+    intro hc'
+    have hpre : protoOk c.1.2 = true := by
+      have : ∃ e, (stepOp (unzip k₀.recd k₁.recd).recd c op).1.2 = c.1.2 ++ [e] := by
+        cases op <;> simp [stepOp, recd_pollReady, recd_startSend, recd_pollFlush, recd_pollClose]
+      obtain ⟨e, he⟩ := this
+      rw [he] at hc'; exact aux_protoOk_prefix _ _ hc'
+    exact aux_unzip_step k₀ k₁ c op (h hpre) hc'
+
+/-- **`Unzip`**: for all inner sinks and every contract-honouring client, both inner sinks see a
+contract-honouring call sequence, the first receives exactly the first components and the second
+exactly the second components, in order, once. -/
+theorem unzip_routes_in_order {γ τ : Type} (k₀ : Snk σ α) (k₁ : Snk τ γ) (s₀ : σ) (s₁ : τ)
+    (ops : List (Op (α × γ))) :
+    let r := runOps (unzip k₀.recd k₁.recd).recd ((((s₀, []), (s₁, [])), []), true) ops
+    protoOk r.1.2 = true →
+      protoOk r.1.1.1.2 = true ∧ protoOk r.1.1.2.2 = true ∧
+      sends r.1.1.1.2 = (sends r.1.2).map (·.1) ∧ sends r.1.1.2.2 = (sends r.1.2).map (·.2) := by
+  intro r hc
+  have h := aux_unzip_run k₀ k₁ ops ((((s₀, []), (s₁, [])), []), true)
+    (fun _ => ⟨rfl, rfl, rfl, rfl, fun h => by simp [armedAfter] at h⟩) hc
+  exact ⟨h.p₀, h.p₁, h.d₀, h.d₁⟩
+
+/-! ### the drivers are contract-honouring clients -/
+
+/-- one `SendIter::poll` appends a self-contained, contract-honouring burst of calls that sends a
+prefix of the remaining items; it returns `Ready` only when every item was sent and the final
+flush answered `Ready`. -/
+theorem sendIter_is_polite_client (k : Snk σ α) (items : List α) : ∀ (s : σ) (ct : List (Ev α)),
+    ∃ de, (sendIterPoll k.recd (s, ct) items).1.2 = ct ++ de ∧ (∀ a, protoOkAux a de = true) ∧
+      sends de ++ (sendIterPoll k.recd (s, ct) items).2.1 = items ∧
+      ((sendIterPoll k.recd (s, ct) items).2.2 = true →
+        (sendIterPoll k.recd (s, ct) items).2.1 = [] ∧ lastFlushed (ct ++ de) = true) := by
+  induction items with
+  | nil =>
+    intro s ct
+    cases hb : (k.pollReady s).2 with
+    | false =>
+      exact ⟨[.ready false], by simp [sendIterPoll, recd_pollReady, hb], fun a => by simp [protoOkAux],
+        by simp [sendIterPoll, recd_pollReady, hb, sends], by simp [sendIterPoll, recd_pollReady, hb]⟩
+    | true =>
+      refine ⟨[.ready true, .flush (k.pollFlush (k.pollReady s).1).2], ?_, fun a => by simp [protoOkAux], ?_, ?_⟩
+      · simp [sendIterPoll, recd_pollReady, recd_pollFlush, hb]
+      · simp [sendIterPoll, recd_pollReady, recd_pollFlush, hb, sends]
+      · intro h
+        simp only [sendIterPoll, recd_pollReady, recd_pollFlush, hb, if_true] at h ⊢
+        refine ⟨trivial, ?_⟩
+        have : ct ++ [Ev.ready true, Ev.flush (k.pollFlush (k.pollReady s).1).2] =
+            (ct ++ [Ev.ready true]) ++ [Ev.flush (k.pollFlush (k.pollReady s).1).2] := by simp
+        rw [this, aux_lastFlushed_snoc]; exact h
+  | cons x rest ih =>
+    intro s ct
+    cases hb : (k.pollReady s).2 with
+    | false =>
+      exact ⟨[.ready false], by simp [sendIterPoll, recd_pollReady, hb], fun a => by simp [protoOkAux],
+        by simp [sendIterPoll, recd_pollReady, hb, sends], by simp [sendIterPoll, recd_pollReady, hb]⟩
+    | true =>
+      obtain ⟨de, h1, h2, h3, h4⟩ := ih (k.startSend (k.pollReady s).1 x).1 (ct ++ [.ready true] ++ [.send x])
+      have hd : sendIterPoll k.recd (s, ct) (x :: rest) =
+          sendIterPoll k.recd ((k.startSend (k.pollReady s).1 x).1, ct ++ [.ready true] ++ [.send x]) rest := by
+        simp only [sendIterPoll, recd_pollReady, recd_startSend, hb, if_true]
+      rw [hd]
+      refine ⟨[.ready true, .send x] ++ de, by rw [h1]; simp, fun a => by simp [protoOkAux, h2], ?_, ?_⟩
+      · simp only [List.cons_append, List.nil_append, sends]; rw [h3]
+      · intro h
+        obtain ⟨e1, e2⟩ := h4 h
+        refine ⟨e1, ?_⟩
+        have : ct ++ ([Ev.ready true, Ev.send x] ++ de) = ct ++ [Ev.ready true] ++ [Ev.send x] ++ de := by simp
+        rw [this]; exact e2
+
+/-! ### `LazySink` -/
+
+def lzTrace : LZ (σ × List (Ev α)) α → List (Ev α)
+  | .uninit _ mk => mk.2
+  | .thunk _ mk _ => mk.2
+  | .done s _ => s.2
+
+def lzPending {τ : Type} : LZ τ α → List α
+  | .thunk _ _ x => [x]
+  | .done _ (some x) => [x]
+  | _ => []
+
+def lzUninit {τ : Type} : LZ τ α → Bool
+  | .uninit _ _ => true
+  | _ => false
+
+/-- in which states the client may legitimately call `start_send` -/
+def lzArmedOk : LZ (σ × List (Ev α)) α → Bool
+  | .uninit _ _ => true
+  | .done s none => armedAfter false s.2
+  | _ => false
+
+/-- the last call was a poll that answered `Ready` -/
+def lastTrue : List (Ev α) → Bool
+  | [] => false
+  | [.ready b] => b
+  | [.flush b] => b
+  | [.close b] => b
+  | [_] => false
+  | _ :: e :: t => lastTrue (e :: t)
+
+theorem aux_lastTrue_snoc (t : List (Ev α)) (e : Ev α) :
+    lastTrue (t ++ [e]) = match e with | .ready b => b | .flush b => b | .close b => b | _ => false := by
+  induction t with
+  | nil => cases e <;> rfl
+  | cons a t ih =>
+    cases t with
+    | nil => cases e <;> simp [lastTrue]
+    | cons b t => simp only [List.cons_append] at ih ⊢; simp only [lastTrue]; exact ih
+
+structure LZInv (l : LazySt (σ × List (Ev α)) α) (ct : List (Ev α)) (ok : Bool) : Prop where
+  proto : protoOk (lzTrace l.st) = true
+  data : sends (lzTrace l.st) ++ lzPending l.st = sends ct
+  once : (lzUninit l.st = true → l.inits = 0) ∧ (lzUninit l.st = false → l.inits = 1)
+  armed : armedAfter false ct = true → lzArmedOk l.st = true
+  polled : lastTrue ct = true → lzPending l.st = []
+
+/-- the effect of `poll_sink_op` with one of the three polls of a recorded inner sink: `mkEv` is the
+event that poll records, `isReady` says whether it is `poll_ready` -/
+theorem aux_lazyOp (k : Snk σ α) (op : σ × List (Ev α) → (σ × List (Ev α)) × Bool) (mkEv : Bool → Ev α)
+    (isReady : Bool)
+    (hop : ∀ p, (op p).1.2 = p.2 ++ [mkEv (op p).2])
+    (hns : ∀ b x, mkEv b ≠ .send x)
+    (harm : ∀ a b, armedAfter a [mkEv b] = if isReady then b else a)
+    (hlast : ∀ t b, lastTrue (t ++ [mkEv b]) = b)
+    (l : LazySt (σ × List (Ev α)) α) (ct : List (Ev α)) (ok : Bool) (hI : LZInv l ct ok)
+    (harmed : armedAfter false ct = true → isReady = false → True) :
+    LZInv (lazyOp k.recd op l).1 (ct ++ [mkEv (lazyOp k.recd op l).2]) ok := by
+  obtain ⟨inits, p, d, on, ar, po⟩ : ∃ i, protoOk (lzTrace l.st) = true ∧ _ ∧ _ ∧ _ ∧ _ :=
+    ⟨l.inits, hI.proto, hI.data, hI.once, hI.armed, hI.polled⟩
+  have hsn : ∀ (t : List (Ev α)) b, sends (t ++ [mkEv b]) = sends t := by
+    intro t b; rw [aux_sends_append]
+    cases h : mkEv b with
+    | send x => exact absurd h (hns b x)
+    | ready _ => simp [sends]
+    | flush _ => simp [sends]
+    | close _ => simp [sends]
+  have hpo : ∀ (t : List (Ev α)) b, protoOk t = true → protoOk (t ++ [mkEv b]) = true :=
+    fun t b h => aux_protoOk_snoc_poll t _ h (hns b)
+  have hburst : ∀ (t : List (Ev α)) (x : α), protoOk t = true →
+      protoOk (t ++ [.ready true] ++ [.send x]) = true := by
+    intro t x h
+    simp only [protoOk, aux_protoOkAux_append, protoOkAux, armedAfter, Bool.and_eq_true, Bool.and_true] at h ⊢
+    simp [h, aux_armedAfter_append, armedAfter]
+  rcases l with ⟨st, ini⟩
+  cases st with
+  | uninit fut mk =>
+    simp only [lazyOp]
+    refine ⟨p, by rw [hsn]; exact d, on, ?_, fun _ => rfl⟩
+    intro _; rfl
+  | thunk fut mk item =>
+    simp only [lzTrace, lzPending, lzUninit] at p d on
+    simp only [lazyOp]
+    cases hf : (futPoll fut).2 with
+    | false =>
+      simp only [hf, Bool.false_eq_true, if_false]
+      refine ⟨p, by rw [hsn]; exact d, by simpa [lzUninit] using on, ?_, ?_⟩
+      · intro h; rw [aux_armedAfter_append, harm] at h
+        cases isReady <;> simp_all [lzArmedOk]
+      · intro h; rw [hlast] at h; cases h
+    | true =>
+      simp only [hf, if_true, recd_pollReady, recd_startSend]
+      by_cases hb0 : (k.pollReady mk.1).2 = true
+      case neg =>
+        have hb : (k.pollReady mk.1).2 = false := by simpa using hb0
+        simp only [hb, Bool.false_eq_true, if_false]
+        refine ⟨by simp only [lzTrace]; exact aux_protoOk_snoc_poll _ _ p (by simp),
+          by simp only [lzTrace, lzPending]; rw [hsn, aux_sends_snoc_ready]; exact d,
+          by simpa [lzUninit] using on, ?_, ?_⟩
+        · intro h; rw [aux_armedAfter_append, harm] at h
+          cases isReady <;> simp_all [lzArmedOk]
+        · intro h; rw [hlast] at h; cases h
+      case pos =>
+        simp only [hb0, if_true]
+        refine ⟨?_, ?_, by simpa [lzUninit] using on, ?_, fun _ => rfl⟩
+        · simp only [lzTrace]; rw [hop]; exact hpo _ _ (hburst _ _ p)
+        · simp only [lzTrace, lzPending, List.append_nil]
+          rw [hop, hsn, hsn, aux_sends_snoc_send, aux_sends_snoc_ready]; exact d
+        · intro h
+          rw [aux_armedAfter_append, harm] at h
+          simp only [lzArmedOk]
+          rw [hop, aux_armedAfter_append, harm]
+          cases isReady
+          · simp only [Bool.false_eq_true, if_false] at h ⊢
+            have := ar h; simp [lzArmedOk] at this
+          · simpa using h
+  | done s buf =>
+    simp only [lzTrace, lzPending, lzUninit] at p d on
+    cases buf with
+    | some item =>
+      simp only [lazyOp, recd_pollReady, recd_startSend]
+      by_cases hb0 : (k.pollReady s.1).2 = true
+      case neg =>
+        have hb : (k.pollReady s.1).2 = false := by simpa using hb0
+        simp only [hb, Bool.false_eq_true, if_false]
+        refine ⟨by simp only [lzTrace]; exact aux_protoOk_snoc_poll _ _ p (by simp),
+          by simp only [lzTrace, lzPending]; rw [hsn, aux_sends_snoc_ready]; exact d,
+          by simpa [lzUninit] using on, ?_, ?_⟩
+        · intro h; rw [aux_armedAfter_append, harm] at h
+          cases isReady <;> simp_all [lzArmedOk]
+        · intro h; rw [hlast] at h; cases h
+      case pos =>
+        simp only [hb0, if_true]
+        refine ⟨?_, ?_, by simpa [lzUninit] using on, ?_, fun _ => rfl⟩
+        · simp only [lzTrace]; rw [hop]; exact hpo _ _ (hburst _ _ p)
+        · simp only [lzTrace, lzPending, List.append_nil]
+          rw [hop, hsn, hsn, aux_sends_snoc_send, aux_sends_snoc_ready]; exact d
+        · intro h
+          rw [aux_armedAfter_append, harm] at h
+          simp only [lzArmedOk]
+          rw [hop, aux_armedAfter_append, harm]
+          cases isReady
+          · simp only [Bool.false_eq_true, if_false] at h ⊢
+            have := ar h; simp [lzArmedOk] at this
+          · simpa using h
+    | none =>
+      simp only [lazyOp]
+      refine ⟨by simp only [lzTrace]; rw [hop]; exact hpo _ _ p,
+        by simp only [lzTrace, lzPending]; rw [hop, hsn, hsn]; exact d,
+        by simpa [lzUninit] using on, ?_, fun _ => rfl⟩
+      intro h
+      rw [aux_armedAfter_append, harm] at h
+      simp only [lzArmedOk]
+      rw [hop, aux_armedAfter_append, harm]
+      cases isReady
+      · simp only [Bool.false_eq_true, if_false] at h ⊢
+        have := ar h; simpa [lzArmedOk] using this
+      · simpa using h
+
+theorem aux_lazy_step (k : Snk σ α) (c : (LazySt (σ × List (Ev α)) α × List (Ev α)) × Bool) (op : Op α)
+    (hI : LZInv c.1.1 c.1.2 c.2)
+    (hc : protoOk (stepOp (lazySink k.recd).recd c op).1.2 = true) :
+    LZInv (stepOp (lazySink k.recd).recd c op).1.1 (stepOp (lazySink k.recd).recd c op).1.2
+      (stepOp (lazySink k.recd).recd c op).2 := by
+  obtain ⟨⟨l, ct⟩, ok⟩ := c
+  cases op with
+  | ready =>
+    simp only [stepOp, recd_pollReady, lazySink]
+    exact aux_lazyOp k k.recd.pollReady .ready true (fun p => by rw [recd_pollReady]) (by simp)
+      (by intro a b; simp [armedAfter]) (by intro t b; rw [aux_lastTrue_snoc]) l ct ok hI (fun _ _ => trivial)
+  | flush =>
+    simp only [stepOp, recd_pollFlush, lazySink]
+    exact aux_lazyOp k k.recd.pollFlush .flush false (fun p => by rw [recd_pollFlush]) (by simp)
+      (by intro a b; simp [armedAfter]) (by intro t b; rw [aux_lastTrue_snoc]) l ct ok hI (fun _ _ => trivial)
+  | close =>
+    simp only [stepOp, recd_pollClose, lazySink]
+    exact aux_lazyOp k k.recd.pollClose .close false (fun p => by rw [recd_pollClose]) (by simp)
+      (by intro a b; simp [armedAfter]) (by intro t b; rw [aux_lastTrue_snoc]) l ct ok hI (fun _ _ => trivial)
+  | send x =>
+    simp only [stepOp, recd_startSend] at hc ⊢
+    have harm : armedAfter false ct = true := by
+      simp only [protoOk, aux_protoOkAux_append, protoOkAux, Bool.and_eq_true, Bool.and_true] at hc
+      exact hc.2
+    obtain ⟨p, d, on, ar, po⟩ := hI
+    simp only at p d on ar po
+    have hok := ar harm
+    rcases l with ⟨st, ini⟩
+    cases st with
+    | uninit fut mk =>
+      simp only [lzTrace, lzPending, lzUninit] at p d on
+      simp only [lazySink]
+      refine ⟨p, by simp only [lzTrace, lzPending]; rw [aux_sends_snoc_send, ← d]; simp, ?_, ?_, ?_⟩
+      · simp only [lzUninit]; constructor
+        · intro h; cases h
+        · intro _; have := on.1 trivial; omega
+      · intro h; simp [aux_armedAfter_append, armedAfter] at h
+      · intro h; rw [aux_lastTrue_snoc] at h; cases h
+    | thunk fut mk item => simp [lzArmedOk] at hok
+    | done s buf =>
+      cases buf with
+      | some item => simp [lzArmedOk] at hok
+      | none =>
+        simp only [lzArmedOk] at hok
+        simp only [lzTrace, lzPending, lzUninit] at p d on
+        simp only [lazySink, recd_startSend]
+        refine ⟨?_, by simp only [lzTrace, lzPending]; rw [aux_sends_snoc_send, aux_sends_snoc_send, ← d]; simp,
+          by simpa [lzUninit] using on, ?_, ?_⟩
+        · simp only [lzTrace, protoOk, aux_protoOkAux_append, protoOkAux, Bool.and_eq_true, Bool.and_true]
+          exact ⟨p, hok⟩
+        · intro h; simp [aux_armedAfter_append, armedAfter] at h
+        · intro h; rw [aux_lastTrue_snoc] at h; cases h
+
+theorem aux_lazy_run (k : Snk σ α) (ops : List (Op α)) :
+    ∀ (c : (LazySt (σ × List (Ev α)) α × List (Ev α)) × Bool),
+      (protoOk c.1.2 = true → LZInv c.1.1 c.1.2 c.2) →
+      protoOk (runOps (lazySink k.recd).recd c ops).1.2 = true →
+      LZInv (runOps (lazySink k.recd).recd c ops).1.1 (runOps (lazySink k.recd).recd c ops).1.2
+        (runOps (lazySink k.recd).recd c ops).2 := by
+  induction ops with
+  | nil => intro c h hc; exact h hc
+  | cons op ops ih =>
+    intro c h hc
+    simp only [runOps, List.foldl_cons] at ih hc ⊢
+    apply ih _ _ hc
+    intro hc'
+    have hpre : protoOk c.1.2 = true := by
+      have : ∃ e, (stepOp (lazySink k.recd).recd c op).1.2 = c.1.2 ++ [e] := by
+        cases op <;> simp [stepOp, recd_pollReady, recd_startSend, recd_pollFlush, recd_pollClose]
+      obtain ⟨e, he⟩ := this
+      rw [he] at hc'; exact aux_protoOk_prefix _ _ hc'
+    exact aux_lazy_step k c op (h hpre) hc'
+
+/-- **`LazySink`** over any inner sink `k` (fresh state `s`), any init-future script `fut`, any
+contract-honouring client:
+ * the inner sink sees a contract-honouring call sequence (`start_send` only after its own `Ready`);
+ * *no item lost*: what the inner sink received, followed by the one item that may still be held
+   (sent before or during initialisation), is exactly what the client sent, in order, once;
+ * *initialised at most once*: the init closure ran 0 times while `Uninit`, exactly once afterwards;
+ * whenever the client may send (`Ready` was answered) the sink is `Uninit` or `Done` with an empty
+   buffer — the "`LazySink` not ready" panic is unreachable;
+ * once any poll answered `Ready`, nothing is held back any more. -/
+theorem lazySink_no_item_lost_init_once (k : Snk σ α) (s : σ) (fut : List Bool) (ops : List (Op α)) :
+    let r := runOps (lazySink k.recd).recd ((⟨.uninit fut (s, []), 0⟩, []), true) ops
+    protoOk r.1.2 = true →
+      protoOk (lzTrace r.1.1.st) = true ∧
+      sends (lzTrace r.1.1.st) ++ lzPending r.1.1.st = sends r.1.2 ∧
+      r.1.1.inits ≤ 1 ∧ (r.1.1.inits = 0 ↔ lzUninit r.1.1.st = true) ∧
+      (armedAfter false r.1.2 = true → lzArmedOk r.1.1.st = true) ∧
+      (lastTrue r.1.2 = true → sends (lzTrace r.1.1.st) = sends r.1.2) := by
+  intro r hc
+  have h := aux_lazy_run k ops ((⟨.uninit fut (s, []), 0⟩, []), true)
+    (fun _ => ⟨rfl, rfl, ⟨fun _ => rfl, fun h => by simp [lzUninit] at h⟩, fun _ => rfl, fun _ => rfl⟩) hc
+  have h1 : lzUninit r.1.1.st = true → r.1.1.inits = 0 := h.once.1
+  have h2 : lzUninit r.1.1.st = false → r.1.1.inits = 1 := h.once.2
+  refine ⟨h.proto, h.data, ?_, ?_, h.armed, fun hl => ?_⟩
+  · cases hu : lzUninit r.1.1.st with
+    | true => have := h1 hu; omega
+    | false => have := h2 hu; omega
+  · constructor
+    · intro h0
+      cases hu : lzUninit r.1.1.st with
+      | true => rfl
+      | false => have := h2 hu; omega
+    · exact h1
+  · have := h.data; rw [h.polled hl, List.append_nil] at this; exact this
+
+/-! ### findings: the contract broken by the code as it is (F4, F4b, F5) -/
+
+/-- F4: `LazySinkHalf::poll_ready` answers `Ready` in `Uninit`; the source half is polled while the
+init future is pending; the client's `start_send` — allowed by the contract — panics. -/
+theorem lazySinkSource_send_after_ready_refuted :
+    let l₀ : LssSt DR Nat := ⟨.uninit [false, true] [none, some 7] (⟨[], [], []⟩, []), 0⟩
+    let r₁ := (lssSink dsnk).pollReady l₀
+    let r₂ := lssNext r₁.1
+    r₁.2 = true ∧ r₂.2 = .pending ∧ ((lssSink dsnk).startSend r₂.1 1).2 = false := by
+  decide
+
+/-- F4b: same interleaving with a future that is ready at once: the item reaches the inner sink's
+`start_send` although the inner sink was never asked `poll_ready`. -/
+theorem lazySinkSource_inner_contract_refuted :
+    let l₀ : LssSt DR Nat := ⟨.uninit [true] [some 7] (⟨[], [], []⟩, []), 0⟩
+    let r₁ := (lssSink dsnk).pollReady l₀
+    let r₂ := lssNext r₁.1
+    let r₃ := (lssSink dsnk).startSend r₂.1 1
+    r₁.2 = true ∧ r₂.2 = .item 7 ∧ r₃.2 = true ∧
+      (match r₃.1.st with | .done _ d _ => protoOk d.2 | _ => true) = false := by
+  decide
+
+/-- F5: `LazyDemuxSink`: `poll_ready` over the (empty) map answers `Ready`, `start_send` for a new
+key calls the fresh sink's `start_send` without `poll_ready`. -/
+theorem lazyDemux_send_after_ready_refuted :
+    let mk : Nat → DR := fun _ => (⟨[], [], []⟩, [])
+    let r₁ := (lazyDemux mk dsnk).pollReady []
+    let r₂ := (lazyDemux mk dsnk).startSend r₁.1 (1, 5)
+    r₁.2 = true ∧ r₂.2 = true ∧ (r₂.1.map fun e => protoOk e.2.2) = [false] := by
+  decide
+
+/-! ### non-vacuity -/
+
+example : protoOk ([.ready false, .ready true, .send 3, .flush true] : List (Ev Nat)) = true := by decide
+example : protoOk ([.ready true, .send 3, .send 4] : List (Ev Nat)) = false := by decide
+
+/-- a `flat_map` run over a downstream that is pending twice: contract kept, everything delivered -/
+example :
+    let r := runOps (flatMap (fun x => [x, x + 1]) dsnk).recd
+      ((((⟨[false, true, false], [], []⟩, []), []), []), true) [.ready, .send 1, .ready, .ready, .ready, .send 5, .flush]
+    protoOk r.1.2 = true ∧ sends r.1.1.1.2 = [1, 2, 5, 6] ∧ lastFlushed r.1.2 = true := by
+  decide
+
 end HvSink.Sink
